@@ -15,6 +15,16 @@ Lemma upd_same t n v : upd t n v n = v. Proof. unfold upd; rewrite Nat.eqb_refl;
 Lemma upd_other t n m v : m <> n -> upd t n v m = t m.
 Proof. unfold upd; intros; destruct (Nat.eqb_spec m n); congruence. Qed.
 
+Lemma fire_tenv ev (h : hist) : exists o h', forall t : tenv, fire respond ev (h, t) = (o, (h', t)).
+Proof.
+  unfold fire. destruct (respond h ev) as [v|v]; [exists (Ret v) | exists (Thr v)]; exists (h ++ [ev]); reflexivity.
+Qed.
+
+Lemma do_add_tenv a b (h : hist) : exists o h', forall t : tenv, do_add respond a b (h, t) = (o, (h', t)).
+Proof.
+  unfold do_add. destruct (pure_add a b) as [v|]; [exists (Ret v), h; reflexivity | apply fire_tenv].
+Qed.
+
 (* source expressions neither read nor write temporaries: same outcome/history under any temp store *)
 Lemma src_tenv e : src e -> forall (h : hist) (t : tenv), exists o h', forall t2 : tenv, eval e (h, t2) = (o, (h', t2)).
 Proof.
@@ -38,6 +48,27 @@ Proof.
     destruct o2 as [b|b]; [|exists (Thr b), h2; intros; rewrite E1; simpl; rewrite E2; reflexivity].
     destruct (respond h2 (EvCall a [b])) eqn:R;
     [exists (Ret v)|exists (Thr v)]; exists (h2 ++ [EvCall a [b]]); intros; rewrite E1; simpl; rewrite E2; simpl; unfold fire; rewrite R; reflexivity.
+  - (* x += e *)
+    destruct (IHe Hs h t) as (o2 & h2 & E2).
+    destruct o2 as [v2|v2]; [|exists (Thr v2), h2; intros; rewrite E2; reflexivity].
+    destruct (do_add_tenv (ustore h x) v2 h2) as (o3 & h3 & E3).
+    destruct o3 as [r|r]; [|exists (Thr r), h3; intros; rewrite E2; cbn [bind fst]; rewrite E3; reflexivity].
+    destruct (fire_tenv (EvWrite x r) h3) as (o4 & h4 & E4).
+    destruct o4 as [w|w]; [exists (Ret r) | exists (Thr w)]; exists h4; intros; rewrite E2; cbn [bind fst]; rewrite E3;
+      cbn [bind]; rewrite E4; reflexivity.
+  - (* o.k += e *)
+    destruct Hs as [Hl Hr].
+    destruct (IHe1 Hl h t) as (o1 & h1 & E1).
+    destruct o1 as [vo|vo]; [|exists (Thr vo), h1; intros; rewrite E1; reflexivity].
+    destruct (fire_tenv (EvGet vo k) h1) as (og & hg & EG).
+    destruct og as [v1|v1]; [|exists (Thr v1), hg; intros; rewrite E1; cbn [bind]; rewrite EG; reflexivity].
+    destruct (IHe2 Hr hg t) as (o2 & h2 & E2).
+    destruct o2 as [v2|v2]; [|exists (Thr v2), h2; intros; rewrite E1; cbn [bind]; rewrite EG; cbn [bind]; rewrite E2; reflexivity].
+    destruct (do_add_tenv v1 v2 h2) as (o3 & h3 & E3).
+    destruct o3 as [r|r]; [|exists (Thr r), h3; intros; rewrite E1; cbn [bind]; rewrite EG; cbn [bind]; rewrite E2; cbn [bind]; rewrite E3; reflexivity].
+    destruct (fire_tenv (EvSet vo k r) h3) as (o4 & h4 & E4).
+    destruct o4 as [w|w]; [exists (Ret r) | exists (Thr w)]; exists h4; intros; rewrite E1; cbn [bind]; rewrite EG; cbn [bind];
+      rewrite E2; cbn [bind]; rewrite E3; cbn [bind]; rewrite E4; reflexivity.
   - (* method call without argument *)
     destruct (IHe Hs h t) as (o1 & h1 & E1).
     destruct o1 as [vo|vo]; [|exists (Thr vo), h1; intros; rewrite E1; reflexivity].
@@ -226,6 +257,14 @@ Proof.
   - (* Par *)
     simpl in Hk. destruct (rw e c) as [x' c1]. simpl in Hk.
     destruct Hk as [Hk | (a & b & Hk)]; discriminate.
+  - (* x += e : the result is an assignment *)
+    simpl in Hk. destruct (rw e c) as [e' c1]. unfold rw_addasg_v in Hk.
+    destruct (rw_add (Var x) (group_sum e') c1) as [sum c2]. simpl in Hk.
+    destruct Hk as [Hk | (a & b & Hk)]; discriminate.
+  - (* o.k += e *)
+    simpl in Hk. destruct (rw e1 c) as [o' c1]. destruct (rw e2 c1) as [e' c2]. unfold rw_addasg_m in Hk.
+    destruct (is_triv o'); destruct (rw_add _ (group_sum e') _) as [sum c4]; simpl in Hk;
+      destruct Hk as [Hk | (a & b & Hk)]; discriminate.
   - (* method call without argument *)
     simpl in Hk. destruct (rw e c) as [o' c1].
     destruct (instr m && (negb (is_lit o') || lit_ok m)).
@@ -281,6 +320,36 @@ Qed.
 
 Lemma const_pure e : const_expr e -> pure_expr e.
 Proof. intros (v & H) s. exists v. apply H. Qed.
+
+Lemma eval_group_sum e (s : st) : eval (group_sum e) s = eval e s.
+Proof. destruct e; reflexivity. Qed.
+
+Lemma group_sum_triv e : is_triv (group_sum e) = true -> group_sum e = e /\ is_triv e = true.
+Proof. destruct e; simpl; try discriminate; auto. Qed.
+
+(** The right operand of the sum built for a compound assignment: kept when it is a literal or an identifier,
+    hoisted otherwise (it is never a bare sum: [group_sum]). *)
+Lemma right_act_grouped l e : (forall a b, l <> Add a b) -> is_triv (group_sum e) = false ->
+  right_act l (group_sum e) = Hoist.
+Proof. intros NL. destruct e; simpl; try discriminate; reflexivity. Qed.
+
+Lemma right_act_triv l r : (forall a b, l <> Add a b) -> is_triv r = true -> right_act l r = Keep.
+Proof. intros NL. destruct r; simpl; try discriminate; intros _; [reflexivity|]. destruct l; try reflexivity. exfalso; eapply NL; reflexivity. Qed.
+
+Lemma eval_asgv x e (s : st) :
+  eval (AsgV x e) s = bind (eval e s) (fun r s1 => bind (fire respond (EvWrite x r) s1) (fun _ s2 => (Ret r, s2))).
+Proof. reflexivity. Qed.
+
+Lemma eval_asgm o k e (s : st) :
+  eval (AsgM o k e) s = bind (eval o s) (fun vo s1 => bind (eval e s1) (fun r s2 =>
+                         bind (fire respond (EvSet vo k r) s2) (fun _ s3 => (Ret r, s3)))).
+Proof. reflexivity. Qed.
+
+Lemma eval_var x (s : st) : eval (Var x) s = (Ret (ustore (fst s) x), s).
+Proof. reflexivity. Qed.
+
+Lemma is_lit_inv e : is_lit e = true -> exists v, e = Lit v.
+Proof. destruct e; simpl; try discriminate; eauto. Qed.
 
 Ltac step_eval := repeat first [rewrite eval_tmp | rewrite eval_lit | progress cbn [bind fst snd]].
 
@@ -397,6 +466,140 @@ Proof.
     eexists; (split; [reflexivity|frame_tac]).
   - (* Par : transparent *)
     pose proof (IHe Hs c h t) as I. simpl. destruct (rw e c) as [x' c1]. exact I.
+  - (* x += e *)
+    pose proof (IHe Hs c) as I1. pose proof (rw_inplace_src e c Hs) as P1.
+    simpl. destruct (rw e c) as [e' c1] eqn:Re. simpl in I1, P1.
+    assert (Hc1 : c <= c1) by (destruct (I1 h t); auto).
+    destruct (src_tenv e Hs h t) as (o2 & h2 & E2).
+    unfold rw_addasg_v, rw_add.
+    assert (NL : forall a b, Var x <> Add a b) by (intros; discriminate).
+    destruct (is_triv (group_sum e')) eqn:TR.
+    + (* the right-hand side stays: x = hook(x + e, x, e) *)
+      destruct (group_sum_triv _ TR) as [GS TE]. rewrite GS in *.
+      destruct (P1 (or_introl TE)) as [Q1 IP1]. inversion Q1; subst e' c1.
+      cbn [left_act]. rewrite TE. rewrite (@right_act_triv (Var x) e NL TE).
+      cbn [app forallb is_lit andb fst snd wrap]. split; [lia|]. intros o h' E.
+      exists t. split; [|apply frame_refl].
+      rewrite eval_asgv. rewrite hook_pure by (repeat constructor; [apply pure_var | apply pure_inplace; exact IP1]).
+      rewrite eval_add, eval_var. cbn [bind fst]. specialize (E t). cbn [fst] in E.
+      destruct (pure_inplace IP1 (h, t)) as (v2 & Ev). rewrite Ev in *. cbn [bind] in *. exact E.
+    + (* both are captured: x = (t0 = x, t1 = e', hook(t0 + t1, t0, t1)) *)
+      cbn [left_act]. rewrite TR. rewrite (@right_act_grouped (Var x) e' NL TR).
+      cbn [app forallb is_lit andb fst snd wrap]. split; [lia|]. intros o h' E.
+      specialize (E t). cbn [fst] in E. rewrite E2 in E.
+      destruct (I1 h (upd t c1 (ustore h x))) as (_ & K1). destruct (K1 o2 h2 E2) as (t2 & Er & F2).
+      rewrite eval_asgv, eval_hoist2, eval_var. cbn [bind fst snd]. rewrite eval_group_sum, Er.
+      destruct o2 as [v2|v2]; cbn [bind fst snd] in *; [|inversion E; subst o h'; eexists; split; [reflexivity|frame_tac]].
+      rewrite hook_pure by (repeat constructor; apply pure_tmp).
+      rewrite eval_add. step_eval. rewrite upd_same.
+      assert (Hk : upd t2 (S c1) v2 c1 = ustore h x).
+      { rewrite upd_other by lia. rewrite F2 by lia. apply upd_same. }
+      rewrite Hk. unfold do_add in *. destruct (pure_add (ustore h x) v2) as [r|].
+      * cbn [bind] in *.
+        destruct (respond h2 (EvWrite x r)) eqn:RW;
+          [rewrite (fire_ret t RW) in E; rewrite (fire_ret _ RW) | rewrite (fire_thr t RW) in E; rewrite (fire_thr _ RW)];
+          cbn [bind] in *; inversion E; subst o h'; eexists; (split; [reflexivity|frame_tac]).
+      * destruct (respond h2 (EvAdd (ustore h x) v2)) as [r|r] eqn:RA.
+        2:{ rewrite (fire_thr t RA) in E. rewrite (fire_thr _ RA). cbn [bind] in *. inversion E; subst o h'. eexists; split; [reflexivity|frame_tac]. }
+        rewrite (fire_ret t RA) in E. rewrite (fire_ret _ RA). cbn [bind] in *.
+        destruct (respond (h2 ++ [EvAdd (ustore h x) v2]) (EvWrite x r)) eqn:RW;
+          [rewrite (fire_ret t RW) in E; rewrite (fire_ret _ RW) | rewrite (fire_thr t RW) in E; rewrite (fire_thr _ RW)];
+          cbn [bind] in *; inversion E; subst o h'; eexists; (split; [reflexivity|frame_tac]).
+  - (* o.k += e *)
+    destruct Hs as [Hl Hr].
+    pose proof (IHe1 Hl c) as I1. pose proof (rw_inplace_src e1 c Hl) as P1.
+    simpl. destruct (rw e1 c) as [o' c1] eqn:Ro. simpl in I1, P1.
+    pose proof (IHe2 Hr c1) as I2. pose proof (rw_inplace_src e2 c1 Hr) as P2.
+    destruct (rw e2 c1) as [e' c2] eqn:Re. simpl in I2, P2.
+    assert (Hc1 : c <= c1) by (destruct (I1 h t); auto).
+    assert (Hc2 : c1 <= c2) by (destruct (I2 h t); auto).
+    destruct (src_tenv e1 Hl h t) as (o1 & h1 & E1).
+    unfold rw_addasg_m, rw_add.
+    (* the tail shared by all cases: the sum is stored into the property *)
+    assert (TAIL : forall vo v1 v2 (hX : hist) (tA tB tC : tenv) o h' lo hi,
+               bind (do_add respond v1 v2 (hX, tA)) (fun r s4 => bind (fire respond (EvSet vo k r) s4) (fun _ s5 => (Ret r, s5))) = (o, (h', tA)) ->
+               frame lo hi tC tB ->
+               exists t', bind (do_add respond v1 v2 (hX, tB)) (fun r s2 => bind (fire respond (EvSet vo k r) s2) (fun _ s3 => (Ret r, s3))) = (o, (h', t')) /\ frame lo hi tC t').
+    { intros vo v1 v2 hX tA tB tC o h' lo hi E F.
+      destruct (do_add_tenv v1 v2 hX) as (o3 & h4 & E3). rewrite E3 in *.
+      destruct o3 as [r|r]; cbn [bind] in *; [|inversion E; subst; eexists; split; [reflexivity | exact F]].
+      destruct (fire_tenv (EvSet vo k r) h4) as (o4 & h5 & E4). rewrite E4 in *.
+      destruct o4 as [w|w]; cbn [bind] in *; inversion E; subst; eexists; (split; [reflexivity | exact F]). }
+    destruct (is_triv o') eqn:TO.
+    + (* the object is an identifier or a literal: it stays *)
+      destruct (P1 (or_introl eq_refl)) as [Q1 IP1]. inversion Q1; subst o' c1.
+      destruct (pure_inplace IP1 (h, t)) as (vo & Evo).
+      assert (o1 = Ret vo /\ h1 = h) as [-> ->] by (pose proof (E1 t) as X; rewrite Evo in X; inversion X; auto).
+      assert (Ho : forall t0 : tenv, eval e1 (h, t0) = (Ret vo, (h, t0))) by exact E1.
+      cbn [left_act fst snd app].
+      destruct (is_triv (group_sum e')) eqn:TR.
+      * (* o.k = (t0 = o.k, hook(t0 + e, t0, e)) *)
+        destruct (group_sum_triv _ TR) as [GS TE]. rewrite GS in *.
+        destruct (P2 (or_introl TE)) as [Q2 IP2]. inversion Q2; subst e' c2.
+        rewrite (@right_act_triv (Get e1 k) e2 ltac:(intros; discriminate) TE).
+        cbn [app forallb is_lit andb fst snd wrap]. split; [lia|]. intros o h' E.
+        specialize (E t). rewrite Ho in E. cbn [bind] in E.
+        rewrite eval_asgm, Ho. cbn [bind]. rewrite eval_hoist1, eval_get, Ho. cbn [bind].
+        destruct (fire_tenv (EvGet vo k) h) as (og & hg & EG). rewrite EG in *.
+        destruct og as [v1|v1]; cbn [bind fst snd] in *; [|inversion E; subst o h'; eexists; split; [reflexivity|frame_tac]].
+        rewrite hook_pure by (repeat constructor; [apply pure_tmp | apply pure_inplace; exact IP2]).
+        rewrite eval_add, eval_tmp. cbn [bind fst snd]. rewrite upd_same.
+        destruct (src_tenv e2 Hr hg t) as (o2 & h2 & E2). rewrite E2 in *.
+        destruct o2 as [v2|v2]; cbn [bind] in *; [|inversion E; subst o h'; eexists; split; [reflexivity|frame_tac]].
+        eapply TAIL; [exact E | frame_tac].
+      * (* o.k = (t0 = o.k, t1 = e', hook(t0 + t1, t0, t1)) *)
+        rewrite (@right_act_grouped (Get e1 k) e' ltac:(intros; discriminate) TR).
+        cbn [app forallb is_lit andb fst snd wrap]. split; [lia|]. intros o h' E.
+        specialize (E t). rewrite Ho in E. cbn [bind] in E.
+        rewrite eval_asgm, Ho. cbn [bind]. rewrite eval_hoist2, eval_get, Ho. cbn [bind].
+        destruct (fire_tenv (EvGet vo k) h) as (og & hg & EG). rewrite EG in *.
+        destruct og as [v1|v1]; cbn [bind fst snd] in *; [|inversion E; subst o h'; eexists; split; [reflexivity|frame_tac]].
+        destruct (src_tenv e2 Hr hg t) as (o2 & h2 & E2). rewrite E2 in E.
+        destruct (I2 hg (upd t c2 v1)) as (_ & K2). destruct (K2 o2 h2 E2) as (t2 & Er & F2).
+        rewrite eval_group_sum, Er.
+        destruct o2 as [v2|v2]; cbn [bind fst snd] in *; [|inversion E; subst o h'; eexists; split; [reflexivity|frame_tac]].
+        rewrite hook_pure by (repeat constructor; apply pure_tmp).
+        rewrite eval_add. step_eval. rewrite upd_same.
+        assert (Hk : upd t2 (S c2) v2 c2 = v1) by (rewrite upd_other by lia; rewrite F2 by lia; apply upd_same).
+        rewrite Hk. eapply TAIL; [exact E | frame_tac].
+    + (* the object is captured: (t0 = o', t0.k = ...) *)
+      cbn [left_act fst snd app].
+      destruct (is_triv (group_sum e')) eqn:TR.
+      * destruct (group_sum_triv _ TR) as [GS TE]. rewrite GS in *.
+        destruct (P2 (or_introl TE)) as [Q2 IP2]. inversion Q2; subst e' c2.
+        rewrite (@right_act_triv (Get (Tmp c1) k) e2 ltac:(intros; discriminate) TE).
+        cbn [app forallb is_lit andb fst snd wrap]. split; [lia|]. intros o h' E.
+        specialize (E t). rewrite E1 in E.
+        destruct (I1 h t) as (_ & K1). destruct (K1 o1 h1 E1) as (t1 & El & F1).
+        rewrite eval_hoist1, El.
+        destruct o1 as [vo|vo]; cbn [bind fst snd] in *; [|inversion E; subst o h'; eexists; split; [reflexivity|frame_tac]].
+        rewrite eval_asgm, eval_tmp. cbn [bind fst snd]. rewrite upd_same.
+        rewrite eval_hoist1, eval_get, eval_tmp. cbn [bind fst snd]. rewrite upd_same.
+        destruct (fire_tenv (EvGet vo k) h1) as (og & hg & EG). rewrite EG in *.
+        destruct og as [v1|v1]; cbn [bind fst snd] in *; [|inversion E; subst o h'; eexists; split; [reflexivity|frame_tac]].
+        rewrite hook_pure by (repeat constructor; [apply pure_tmp | apply pure_inplace; exact IP2]).
+        rewrite eval_add, eval_tmp. cbn [bind fst snd]. rewrite upd_same.
+        destruct (src_tenv e2 Hr hg t) as (o2 & h2 & E2). rewrite E2 in *.
+        destruct o2 as [v2|v2]; cbn [bind] in *; [|inversion E; subst o h'; eexists; split; [reflexivity|frame_tac]].
+        eapply TAIL; [exact E | frame_tac].
+      * rewrite (@right_act_grouped (Get (Tmp c2) k) e' ltac:(intros; discriminate) TR).
+        cbn [app forallb is_lit andb fst snd wrap]. split; [lia|]. intros o h' E.
+        specialize (E t). rewrite E1 in E.
+        destruct (I1 h t) as (_ & K1). destruct (K1 o1 h1 E1) as (t1 & El & F1).
+        rewrite eval_hoist1, El.
+        destruct o1 as [vo|vo]; cbn [bind fst snd] in *; [|inversion E; subst o h'; eexists; split; [reflexivity|frame_tac]].
+        rewrite eval_asgm, eval_tmp. cbn [bind fst snd]. rewrite upd_same.
+        rewrite eval_hoist2, eval_get, eval_tmp. cbn [bind fst snd]. rewrite upd_same.
+        destruct (fire_tenv (EvGet vo k) h1) as (og & hg & EG). rewrite EG in *.
+        destruct og as [v1|v1]; cbn [bind fst snd] in *; [|inversion E; subst o h'; eexists; split; [reflexivity|frame_tac]].
+        destruct (src_tenv e2 Hr hg t) as (o2 & h2 & E2). rewrite E2 in E.
+        destruct (I2 hg (upd (upd t1 c2 vo) (S c2) v1)) as (_ & K2). destruct (K2 o2 h2 E2) as (t2 & Er & F2).
+        rewrite eval_group_sum, Er.
+        destruct o2 as [v2|v2]; cbn [bind fst snd] in *; [|inversion E; subst o h'; eexists; split; [reflexivity|frame_tac]].
+        rewrite hook_pure by (repeat constructor; apply pure_tmp).
+        rewrite eval_add. step_eval. rewrite upd_same.
+        assert (Hk : upd t2 (S (S c2)) v2 (S c2) = v1) by (rewrite upd_other by lia; rewrite F2 by lia; apply upd_same).
+        rewrite Hk. eapply TAIL; [exact E | frame_tac].
   - (* method call without argument *)
     pose proof (IHe Hs c) as I1. pose proof (rw_inplace_src e c Hs) as P1.
     simpl. destruct (rw e c) as [l' c1] eqn:Rl. simpl in I1, P1.
@@ -406,7 +609,7 @@ Proof.
     + unfold rw_mcall0. destruct (is_lit l') eqn:LL.
       * assert (TL : is_triv l' = true) by (destruct l'; simpl in *; congruence).
         destruct (P1 (or_introl TL)) as [Q1 _]. inversion Q1; subst l' c1.
-        destruct e as [v0| | | | | | | | | | | | | |]; try discriminate LL.
+        destruct (is_lit_inv _ LL) as (v0 & ->).
         assert (o1 = Ret v0 /\ h1 = h) as [-> ->] by (specialize (E1 t); simpl in E1; inversion E1; auto).
         cbn [app fst snd wrap]. split; [lia|]. intros o h' E.
         specialize (E t). rewrite E1 in E. cbn [bind] in E.
@@ -461,7 +664,7 @@ Proof.
       * (* literal receiver: it stays *)
         assert (TL : is_triv l' = true) by (destruct l'; simpl in *; congruence).
         destruct (P1 (or_introl TL)) as [Q1 _]. inversion Q1; subst l' c1.
-        destruct e1 as [v0| | | | | | | | | | | | | |]; try discriminate LL.
+        destruct (is_lit_inv _ LL) as (v0 & ->).
         assert (o1 = Ret v0 /\ h1 = h) as [-> ->] by (specialize (E1 t); simpl in E1; inversion E1; auto).
         destruct DA as [HA | NA].
         -- (* argument hoisted *)
